@@ -193,6 +193,43 @@ MUTANTS = [
     ("c11-became-necessary-unguarded", "C11", "C11.GUARD-stats", N,
      "        if !was_necessary {\n            self.became_necessary(state);\n        }\n        if let Some(Kind::Expert(expert)) = p.kind() {",
      "        if !was_necessary || self.recomputed_at.get().is_never() {\n            self.became_necessary(state);\n        }\n        if let Some(Kind::Expert(expert)) = p.kind() {"),
+    # ---- C12
+    ("c12-bind-main-strong", "C12", "C12.TYG-strong", [
+        ("src/kind/bind.rs", "    pub main: RefCell<WeakNode>,", "    pub main: RefCell<WeakNode>,\n    pub main_strong: RefCell<Option<NodeRef>>,"),
+        ("src/incr.rs", "            main: RefCell::new(Weak::<Node>::new()),\n        });", "            main: RefCell::new(Weak::<Node>::new()),\n            main_strong: RefCell::new(None),\n        });"),
+        ("src/incr.rs", "            *bind_main = main.weak();\n", "            *bind_main = main.weak();\n            *bind.main_strong.borrow_mut() = Some(main.packed());\n"),
+     ], None, None),
+    ("c12-var-drop-no-push", "C12", "C12.PDOM-breaker", "src/public.rs",
+     "                let mut dead_vars = state.dead_vars.borrow_mut();\n                dead_vars.push(self.internal.erased());",
+     "                let dead_vars = state.dead_vars.borrow_mut();\n                let _ = (&dead_vars, self.internal.erased());"),
+    ("c12-destroy-no-drain", "C12", "C12.PDOM-breaker", "src/state.rs",
+     "        for var in dead_vars.drain(..).filter_map(|x| x.upgrade()) {\n            var.break_rc_cycle();\n        }",
+     "        dead_vars.clear();"),
+    ("c12-expert-drop-keeps-children", "C12", "C12.PDOM-breaker", "src/kind/expert.rs",
+     "        self.children.take();\n        self.recompute.take();", "        self.recompute.take();"),
+    ("c12-unlink-keeps-observer", "C12", "C12.PDOM-breaker", "src/state.rs",
+     "                let mut ao = self.all_observers.borrow_mut();\n                ao.remove(&obs.id());\n                drop(obs);",
+     "                drop(obs);"),
+    ("c12-parents-strong-cache", "C12", "C12.TYG-strong", [
+        ("src/node.rs", "    pub force_necessary: Cell<bool>,\n", "    pub force_necessary: Cell<bool>,\n    pub last_parent: RefCell<Option<NodeRef>>,\n"),
+        ("src/node.rs", "            force_necessary: false.into(),\n", "            force_necessary: false.into(),\n            last_parent: RefCell::new(None),\n"),
+        ("src/node.rs", "        child_parents.push(parent_ref.weak());\n", "        child_parents.push(parent_ref.weak());\n        *child.last_parent.borrow_mut() = Some(parent_ref.packed());\n"),
+     ], None, None),
+    # ---- C20
+    ("c20-no-within-scope", "C20", "C20.WMC-scope", "src/public.rs",
+     "            let val = weak_state\n                .upgrade()\n                .unwrap()\n                .within_scope(creation_scope.clone(), || f(i.clone()));",
+     "            let _ = (&weak_state, &creation_scope);\n            let val = f(i.clone());"),
+    ("c20-scope-at-call-time", "C20", "C20.WMC-scope", "src/public.rs",
+     "                .within_scope(creation_scope.clone(), || f(i.clone()));",
+     "                .within_scope({ let _ = &creation_scope; weak_state.current_scope() }, || f(i.clone()));"),
+    ("c20-gc-inverted", "C20", "C20.TYG-weak", "src/public.rs",
+     "impl<K: Hash + NotObserver, V> WeakMap for WeakHashMap<K, V> {\n    fn garbage_collect(&mut self) {\n        self.retain(|_k, v| v.strong_count() != 0);",
+     "impl<K: Hash + NotObserver, V> WeakMap for WeakHashMap<K, V> {\n    fn garbage_collect(&mut self) {\n        self.retain(|_k, v| v.strong_count() == 0);"),
+    ("c20-not-registered", "C20", "C20.TYG-weak", "src/public.rs",
+     "        self.add_weak_map(storage.clone());\n", ""),
+    ("c20-always-recompute", "C20", "C20.GUARD-lookup", "src/public.rs",
+     "                if let Some(found_strong) = incr {\n                    return found_strong;\n                }",
+     "                let _ = incr;"),
     # ---- C14
     ("c14-no-latch-reset", "C14", "C14.DTAB-latch", "src/kind/expert.rs",
      "            self.will_fire_all_callbacks.set(true);\n", ""),
@@ -262,12 +299,19 @@ def main():
         subprocess.check_call(["git", "-C", REPO, "worktree", "add", "--detach", "-q", base, "HEAD"])
         try:
             for name, prop, rule, f, old, new in MUTANTS:
-                p = os.path.join(base, f)
-                s = open(p).read()
-                if s.count(old) != 1:
-                    print("SKIP %s: pattern occurs %d times in %s" % (name, s.count(old), f))
+                edits = f if isinstance(f, list) else [(f, old, new)]
+                bad = False
+                for (ff, oo, nn) in edits:
+                    p = os.path.join(base, ff)
+                    s = open(p).read()
+                    if s.count(oo) != 1:
+                        print("SKIP %s: pattern occurs %d times in %s" % (name, s.count(oo), ff))
+                        bad = True
+                        break
+                    open(p, "w").write(s.replace(oo, nn))
+                if bad:
+                    subprocess.check_call(["git", "-C", base, "checkout", "-q", "--", "."])
                     continue
-                open(p, "w").write(s.replace(old, new))
                 diff = subprocess.check_output(["git", "-C", base, "diff"], text=True)
                 subprocess.check_call(["git", "-C", base, "checkout", "-q", "--", "."])
                 with open(os.path.join(OUT, name + ".patch"), "w") as fh:
